@@ -1224,11 +1224,16 @@ def element_independence(m, fn, sink_names, _depth=0):
         work, seen_n, hit, hit_maybe = [], set(), None, None
         ctrl_of = lambda node: [x.test for x in _chain(parents, node, lp) if isinstance(x, (ast.If, ast.While, ast.IfExp))]
 
+        called = set()
+
         def push(expr):
             for x in ast.walk(expr):
                 if isinstance(x, ast.Name) and isinstance(x.ctx, ast.Load) and x.id in locs and x.id not in seen_n:
                     seen_n.add(x.id)
                     work.append(x.id)
+                elif isinstance(x, ast.Call) and dotted(x.func) in m.functions:
+                    called.add(dotted(x.func))
+        push(sk)
         for a in list(sk.args) + [k.value for k in sk.keywords]:
             push(a)
         for t in ctrl_of(sk):
@@ -1250,6 +1255,12 @@ def element_independence(m, fn, sink_names, _depth=0):
                 if isinstance(node, ast.AST) and node in parents:
                     for t in ctrl_of(node):
                         push(t)
+        if not hit:
+            for q in sorted(called):
+                g = _module_state_written(m, q)
+                if g:
+                    hit = f"`{q}` (called for the element) modifies the module-level object `{g}`, which outlives the iteration"
+                    break
         if hit:
             results.append((False, f"state carried between iterations reaches {ast.unparse(sk.func)}(...): {hit}", sk.lineno))
         elif hit_maybe:
@@ -1356,6 +1367,36 @@ def _exposed(stmts, defined):
                 if isinstance(n, ast.NamedExpr):
                     defined |= _targets(n.target)
     return exposed, defined, False
+
+
+def _module_state_written(m, q, depth=0, seen=None):
+    """name of a module-level object that the module function q (or a module function it calls) modifies in place or rebinds, else None"""
+    seen = seen if seen is not None else set()
+    fn = m.functions.get(q)
+    if fn is None or q in seen:
+        return None
+    seen.add(q)
+    globs = {n for x in ast.walk(fn) if isinstance(x, ast.Global) for n in x.names}
+    locs = _fn_locals(fn) - globs
+    is_mod = lambda name: name is not None and name not in locs and name in m.assigns
+    for n in ast.walk(fn):
+        if isinstance(n, (ast.Assign, ast.AugAssign, ast.AnnAssign, ast.Delete)):
+            for t in (n.targets if isinstance(n, (ast.Assign, ast.Delete)) else [n.target]):
+                for x in (t.elts if isinstance(t, (ast.Tuple, ast.List)) else [t]):
+                    if isinstance(x, (ast.Attribute, ast.Subscript)) and is_mod(_base_name(x)):
+                        return _base_name(x)
+                    if isinstance(x, ast.Name) and x.id in globs:
+                        return x.id
+        elif isinstance(n, ast.Call):
+            if isinstance(n.func, ast.Attribute) and n.func.attr in _MUTATORS and is_mod(_base_name(n.func.value)) \
+                    and not isinstance(m.assigns.get(_base_name(n.func.value)), ast.Call):
+                return _base_name(n.func.value)
+            cq = dotted(n.func)
+            if cq in m.functions and depth < 2:
+                g = _module_state_written(m, cq, depth + 1, seen)
+                if g:
+                    return g
+    return None
 
 
 def _chain(parents, node, stop):
